@@ -23,6 +23,13 @@ import annotate  # noqa
 SRC_FILES = ["error.c", "expression.c", "fifo.c", "ieee488.c", "lexer.c", "minimal.c",
              "parser.c", "units.c", "utils.c"]
 MAX_REPORT = 4
+# C01 (memory safety / UB / termination) is the conjunction of the standard checks inside EVERY job; its quick tier runs
+# the jobs around the input path, the thorough tier all of them.
+C01_CORE = ('lexer.scpiLex_', 'lexer.skipQuote', 'lexer.skipProgramMnemonic', 'parser.scpiParser_detect', 'dispatch.compose', 'dispatch.findCommandHeader',
+            'regs.SCPI_RegSet_safety', 'heap.', 'match.idn', 'param.SCPI_ParamCopyText', 'param.SCPI_Parameter', 'error.SCPI_ErrorPushEx', 'fifo.fifo_add',
+            'fifo.fifo_remove', 'fmt.contract.UInt32', 'buf.SCPI_DoubleToStr', 'msg.chunking')
+import threading
+HEAVY_SEM = threading.Semaphore(int(os.environ.get('VERIF_HEAVY', '2')))
 SOLVERS = {
     "minisat": [],
     "cadical": ["--sat-solver", "cadical"],
@@ -88,7 +95,7 @@ def sh(cmd, cwd=None, timeout=None, mem_gb=None):
                            stdout=subprocess.PIPE, stderr=subprocess.PIPE, timeout=timeout)
         return p.returncode, p.stdout.decode("utf-8", "replace"), p.stderr.decode("utf-8", "replace"), time.time() - t0
     except subprocess.TimeoutExpired as e:
-        return -9, (e.stdout or b"").decode("utf-8", "replace"), "TIMEOUT", time.time() - t0
+        return -99, (e.stdout or b"").decode("utf-8", "replace"), "TIMEOUT", time.time() - t0
 
 
 def shq(s):
@@ -116,7 +123,14 @@ def prepare_scratch(scratch):
 
 
 def run_job(job, scratch_root, keep=False):
-    """returns result dict"""
+    """returns result dict; jobs that may need a lot of memory are serialised (at most VERIF_HEAVY at a time)"""
+    if job.get("mem_gb", 12) >= 20:
+        with HEAVY_SEM:
+            return run_job_(job, scratch_root, keep)
+    return run_job_(job, scratch_root, keep)
+
+
+def run_job_(job, scratch_root, keep=False):
     t0 = time.time()
     res = {"job": job["name"], "kind": job["kind"], "status": "error", "obligations": 0,
            "discharged": 0, "failed": [], "solver_s": 0.0, "wall_s": 0.0, "backend": job["solver"],
@@ -170,7 +184,12 @@ def run_job(job, scratch_root, keep=False):
     rc, out, err, dt = sh(cb, cwd=wd, timeout=job["timeout"], mem_gb=job["mem_gb"])
     if keep:
         open(os.path.join(wd, "cbmc.json"), "w").write(out)
-    if rc == -9:
+    if rc in (-9, 137):
+        res["status"] = "oom"
+        res["note"] = "cbmc killed (out of memory?)"
+        res["wall_s"] = time.time() - t0
+        return res
+    if rc == -99:
         res["status"] = "timeout"
         res["note"] = "cbmc timeout after %ds" % job["timeout"]
         res["wall_s"] = time.time() - t0
@@ -353,7 +372,10 @@ def main():
     known, fixed = load_known()
     sel = [j for j in jobs if args.prop in j["props"] or args.prop == "ALL"]
     if args.tier == "quick":
-        sel = [j for j in sel if j["tier"] == "quick"]
+        sel = [j for j in sel if j["tier"] == "quick" and args.prop not in j.get("thorough_for", [])]
+        if args.prop == "C01":
+            core = [j for j in sel if j.get("c01_core") or any(j["name"].startswith(pfx) for pfx in C01_CORE)]
+            sel = core
     if args.jobs:
         pats = args.jobs.split(",")
         sel = [j for j in jobs if any(re.fullmatch(p, j["name"]) for p in pats)]
